@@ -160,7 +160,12 @@ def _node_main(rfd, wfd):
         k = cmd[0]
         if k == 'activate':
             _, code, name, aliases, pred, kk = cmd
-            res = _outcome(lambda: T.add_soft_fork(code, name, make_op(pred, kk), list(aliases)))
+            if aliases:
+                res = _outcome(lambda: T.add_soft_fork(code, name, make_op(pred, kk), list(aliases)))
+            else:
+                # no aliases: the argument is simply left out, as callers do (every such
+                # activation on this node then shares the function's default)
+                res = _outcome(lambda: T.add_soft_fork(code, name, make_op(pred, kk)))
         elif k == 'activate_bad':
             _, how, code, name = cmd
             if how == 'not_callable':
